@@ -650,6 +650,8 @@ fn main() {
         // debug printing of the library goes to stdout as well: flush and tag our own lines
         out.flush().unwrap();
         writeln!(out, "@@ANS {}", ans).unwrap();
+        // flush at once: an answer longer than the buffer would otherwise be split around the library's prints of the next request
+        out.flush().unwrap();
     }
     out.flush().unwrap();
 }
